@@ -191,6 +191,7 @@ type creq struct {
 	Method    string      `json:"method"`
 	Fields    []rig.Field `json:"fields"` // without Host (added from Authority)
 	Label     string      `json:"label,omitempty"`
+	Tail      string      `json:"tail,omitempty"` // bytes after the head (the empty chunked body of a request that announces one)
 }
 
 type ccase struct {
@@ -250,6 +251,7 @@ func (q *creq) wire() []byte {
 		fmt.Fprintf(&b, "%s: %s\r\n", f.Name, f.Value)
 	}
 	b.WriteString("\r\n")
+	b.WriteString(q.Tail)
 	return []byte(b.String())
 }
 
@@ -423,6 +425,10 @@ func openTunnel(addr string, gate bool) (*rig.Client, error) {
 	return c, nil
 }
 
+// comparedAtOrigin: the fields of a forwarded (non-CONNECT) head that are compared with the model here: the credential
+// fields and the fixed hop-by-hop list (complete heads are C01's)
+var comparedAtOrigin = []string{"authorization", "proxy-authorization", "proxy-authenticate", "te", "trailer", "upgrade", "keep-alive", "proxy-connection"}
+
 var viaRe = regexp.MustCompile(`^1\.[01] fwdverif-[0-9a-f]{20}$`)
 
 // ---- the property's clauses, independently of the model ----
@@ -571,6 +577,15 @@ func evaluate(ctx *core.Ctx, fc *reqmodel.FullCfg, cc *ccase, one any, q *creq, 
 			ctx.Count("gen/" + l)
 		}
 	}
+	// the Connection-field dimension: shape of the client's Connection field x fixed hop-by-hop field present, and,
+	// for the credential field, x proxy basic auth on/off
+	shape := reqmodel.ConnShapeOf(q.Fields)
+	for _, l := range reqmodel.ConnShapeLabels(q.Fields) {
+		ctx.Count(l)
+	}
+	if len(cliPA) > 0 {
+		ctx.Count(fmt.Sprintf("connx-gate/%s/Proxy-Authorization/gate-%v/%s", shape, cc.Gate, q.Kind))
+	}
 	if site != nil {
 		ctx.Count("site-credential-matches")
 	}
@@ -685,7 +700,7 @@ func evaluate(ctx *core.Ctx, fc *reqmodel.FullCfg, cc *ccase, one any, q *creq, 
 						diffs = append(diffs, fmt.Sprintf("%s: got %q want %q", k, hd.Fields[k], w.s.Fields[k]))
 					}
 				} else {
-					for _, k := range []string{"authorization", "proxy-authorization"} {
+					for _, k := range comparedAtOrigin {
 						if strings.Join(hd.Fields[k], "\x00") != strings.Join(w.s.Fields[k], "\x00") {
 							diffs = append(diffs, fmt.Sprintf("%s: got %q want %q", k, hd.Fields[k], w.s.Fields[k]))
 						}
@@ -978,8 +993,13 @@ func Run(ctx *core.Ctx) {
 		"CONNECT (tunnelled through the upstream proxy to a TLS origin), requests inside an intercepted tunnel (https via the transport's own CONNECT); client " +
 		"header shapes: Proxy-Authorization absent/single/repeated/mixed case/nominated by Connection, Authorization absent/present/empty; 30% of the requests are " +
 		"protocol upgrades (Upgrade + Connection: Upgrade in token lists of every spelling) that also nominate Proxy-Authorization / Authorization / the standard " +
-		"hop-by-hop set / managed and custom names with the nominated fields present; every head every hop reads " +
-		"is compared; 40% of the cases are PAC configurations with 2-4 upstream proxies that share a host name and differ in port (or share the port and differ " +
+		"hop-by-hop set / managed and custom names with the nominated fields present; 45% of the other requests draw the Connection-field dimension " +
+		"(reqmodel.GenConnShape): Connection absent / exactly one line with exactly one option (keep-alive or close as most clients send it, respellings, " +
+		"upgrade, TE, a custom name, a name of the fixed list) / one option next to empty list elements / one line with several options / several lines / " +
+		"empty value, crossed with the presence of each field of the fixed hop-by-hop list (Proxy-Authorization, Proxy-Authenticate, TE, Trailer, " +
+		"Transfer-Encoding with an empty chunked body, Upgrade, Keep-Alive, Proxy-Connection) and with the gate on/off (distribution: connx/ and " +
+		"connx-gate/ counts); every head every hop reads " +
+		"is compared (forwarded requests: the credential fields and the fixed hop-by-hop list; CONNECT heads: all fields); 40% of the cases are PAC configurations with 2-4 upstream proxies that share a host name and differ in port (or share the port and differ " +
 		"in host, or are spellings of one address), a credentials table with exact / host:* / *:port / *:* entries for some of them and none for the rest, and " +
 		"a request sequence on one instance that visits them in every order: every Proxy-Authorization value (SOCKS5 credential) must be seen only by the proxy " +
 		"whose host:port the table assigns it to, and the sequence model pacCredSeq is compared per case; " +
